@@ -187,13 +187,21 @@ pub fn call(op: &str, d: &Dag, fl: u32) -> Got {
     let r = guard(|| {
         let mut a = Allocator::new();
         let args = build(&mut a, d).expect("build");
-        match f(&mut a, args, u64::MAX, flags(fl)) {
+        let once = |a: &mut Allocator| match f(a, args, u64::MAX, flags(fl)) {
             Ok(red) => match a.sexp(red.1) {
                 clvmr::allocator::SExp::Atom => Got::Value(a.atom(red.1).as_ref().to_vec()),
                 _ => Got::Tree,
             },
             Err(e) => Got::Reject(format!("{}: {e}", err_kind(&e))),
+        };
+        // the decision may not depend on what the same allocator has seen before (validated-point caches):
+        // the identical call is repeated in the same allocator
+        let first = once(&mut a);
+        let second = once(&mut a);
+        if first != second {
+            return Got::Panic(format!("the same call repeated in the same allocator gives a different outcome: first {first:?}, then {second:?}"));
         }
+        first
     });
     match r {
         Ok(g) => g,
@@ -209,7 +217,7 @@ pub enum Exp {
 
 fn compare(what: &str, got: &Got, exp: &Exp, ctx: &str) -> Option<Verdict> {
     match (got, exp) {
-        (Got::Panic(p), _) => Some(Verdict::fail(format!("{what} panicked: {p}\n {ctx}"))),
+        (Got::Panic(p), _) => Some(Verdict::fail(format!("{what} misbehaved: {p}\n {ctx}"))),
         (Got::Value(g), Exp::Value(e)) if g == e => None,
         (Got::Reject(_), Exp::Reject(_)) => None,
         (Got::Value(g), Exp::Value(e)) => Some(Verdict::fail(format!("{what} returned {} but the independent implementation gives {}\n {ctx}", hexs(g), hexs(e)))),
